@@ -80,6 +80,8 @@ def prepare(ch):
         prep.lock_policy = ch.draw(2)
         prep.lock_acq = ch.chance(1, 3)
         prep.second = ch.chance(1, 2)
+        # another task invalidates the property (del instance.attr) while the computation is in flight
+        prep.deleter = ch.draw(4) if ch.chance(1, 3) else None
     elif prep.cls == "scoped":
         prep.src = g.src(g.items(ch.between(0, 4)))
         prep.pre = ch.draw(3)     # block-level suspensions before the first pull
@@ -357,14 +359,25 @@ def run_cprop(prep, st, sim, info, cancel_at):
                 info["leaving"] = err
             raise
 
+    async def deleter(pauses):
+        for _ in range(pauses):
+            await sim.suspend(PAUSE, None, "deleter")
+        try:
+            del inst.attr
+            info["detail"]["deleted_in_flight"] = any(r[0] == "running" for r in runs)
+        except AttributeError:
+            pass
+
     tasks = [sim.spawn(awaiter(0))]
     if prep.second:
         tasks.append(sim.spawn(awaiter(1)))
+    if prep.deleter is not None:
+        sim.spawn(deleter(prep.deleter))
     info["target"] = tasks[0]
     if cancel_at:
         sim.cancel_plan[tasks[0].id] = cancel_at
     run_sim(sim)
-    info["detail"].update({"second_awaiter": prep.second, "getter_runs": [r[0] for r in runs]})
+    info["detail"].update({"second_awaiter": prep.second, "deleter_pauses": prep.deleter, "getter_runs": [r[0] for r in runs]})
     if sim.deadlock or sim.capped:
         return
     for lk in sim.locks:
